@@ -734,10 +734,24 @@ def run_writer_check(prop, tier, seed, faults, design_ref):
                 if pid == "C19":
                     cw_fail.append(((0, len(c), 0), c, o, msg))
         rep.cov["stats_sample_cases"] = len(scs)
+    if prop == "C05":
+        # the real buffered UDP sink with more buffered than one datagram can carry, and a metric no datagram can carry:
+        # what arrives is whole lines within the capacity or the metric alone, never a cut piece
+        from . import sock as sock_driver
+        bcs = ["UO 32", "UO 512"] + sock_driver.big_udp_cases()
+        try:
+            bci = common.run_harness("sock", bcs, shards=2)
+        except common.CheckFailure as e:
+            bci = ["HARNESS-PANIC " + str(e)[:200]] * len(bcs)
+        for c, o in zip(bcs, bci):
+            for pid, msg in sock_driver.judge(c, re.sub(r"\|N:[0-9,]*(\|T:[0-9.;]*)?", "", o) if c.startswith("UO") else o):
+                if pid == "C05":
+                    cw_fail.append(((0, len(c), 0), c, o, msg))
+        rep.cov["large_udp_cases"] = len(bcs)
     if prop == "C06":
         # the real buffered UDP sink and a metric no datagram can carry: Ok means written, whole, during its own emit
         from . import sock as sock_driver
-        uos = ["UO 32", "UO 512", "UO 1432"]
+        uos = ["UO 32", "UO 512", "UO 1432"] + sock_driver.outage_cases()
         try:
             uoi = common.run_harness("sock", uos, shards=1)
         except common.CheckFailure as e:
@@ -751,7 +765,7 @@ def run_writer_check(prop, tier, seed, faults, design_ref):
         # the real buffered UDP sink over a socket connected to a closed port: the OS refuses every other send
         # (ECONNREFUSED); every emit and flush must return (Ok or the socket's error), nothing may hang or be duplicated
         from . import sock as sock_driver
-        urs = sock_driver.ur_cases()
+        urs = sock_driver.ur_cases() + sock_driver.outage_cases()
         try:
             uimpl = common.run_harness("sock", urs, shards=min(4, len(urs)))
         except common.CheckFailure as e:
